@@ -140,6 +140,23 @@ static void c06_case(uint64_t idx)
 			}
 			if (!same_result(&d, &c, ignore_out, ignore_tin, why, sizeof(why))) {
 				snprintf(key, sizeof(key), "slicing-changes-result|%s|%s", d_names[kind], g.mutated || g.kind == SK_GARBAGE ? "invalid-or-mutated" : "valid");
+				// One class has a name of its own (known_findings.jsonl): a rejected Block whose header declares a
+				// Compressed/Uncompressed Size - block_decoder.c compares the sizes reached with the declared ones
+				// after every call and looks at whether the caller offered more input (*in_pos < in_size), so the
+				// number of bytes consumed when LZMA_DATA_ERROR comes back depends on the slicing. Same status, same
+				// output, only total_in differs.
+				if (is_error && !d.init_failed && d.ret == c.ret && c.ret == LZMA_DATA_ERROR && d.total_in != c.total_in
+						&& (ignore_out || (d.out.n == c.out.n && (c.out.n == 0 || memcmp(d.out.p, c.out.p, c.out.n) == 0)))) {
+					size_t ho = kind == D_BLOCK ? 0 : 12;
+					bool declared = false;
+					// (walk the Block Headers of the first Stream as far as they can be walked)
+					for (unsigned hops = 0; hops < 64 && ho + 2 < g.data.n && g.data.p[ho] != 0; ++hops) {
+						uint8_t fl = g.data.p[ho + 1];
+						if (fl & 0xC0) { declared = true; break; }
+						break;   // without a Compressed Size the next header cannot be located
+					}
+					if (declared) snprintf(key, sizeof(key), "slicing-changes-result|%s|invalid-or-mutated|input-consumed-at-data-error|block-declares-sizes", d_names[kind]);
+				}
 				hx_violation("C06", key, idx, "%s; slicing %s split=%zu seed=%" PRIu64 " max_in=%zu max_out=%zu; input %s %s; flags=0x%x fin=%d",
 						why, slice_mode_name(p.mode), p.split, p.seed, p.max_in, p.max_out, g.desc, mdesc, spec.flags, (int)fin);
 				dec_result_free(&d); goto done;
